@@ -688,3 +688,25 @@ func (g *G) addGetters() {
 		}
 	}
 }
+
+// PatternGen produces parameter patterns for an existing configuration (references only to
+// parameters that already exist, calls only of registered functions).
+type PatternGen struct {
+	g      *G
+	params []string
+}
+
+func NewPatternGen(r *rand.Rand, conf *cfg.Config) *PatternGen {
+	g := &G{R: r, O: DefaultOpts(), C: conf, fnNames: map[string]string{"env": "env", "envInt": "envInt", "todo": "todo"}}
+	im := ref.NewImports(conf)
+	for _, kv := range conf.Meta.Functions {
+		g.fnNames[kv.K] = im.ParseFunc(kv.V).Sym
+	}
+	p := &PatternGen{g: g}
+	for _, kv := range conf.Params {
+		p.params = append(p.params, kv.K)
+	}
+	return p
+}
+
+func (p *PatternGen) Pattern() string { return p.g.pattern(p.params) }
